@@ -26,7 +26,7 @@ def check(run, model, tier):
     run.rule('ORDER.start_at', 'state.fun = top; temp.fun = start state < init() < bookkeeping')
     run.rule('HSM-CURSOR.I1', 'temp.fun == state.fun at exit of init')
     ba, res = hsmrules.record_buffer_obligations(run, model, 'init')
-    run.floor('buffer obligations in init', len(res), 6)
+    run.floor('buffer obligations in init', len(res), 4)
     n = hsmrules.entry_loops(run, model, 'init')
     run.floor('entry loops in init', n, 1)
     n = hsmrules.signal_sets(run, model, ['init'])
